@@ -348,6 +348,12 @@ inductive Res where
   | diverge
   deriving Repr, Inhabited
 
+/-- neither a panic nor unbounded recursion -/
+def Res.safe : Res → Prop
+  | .panic => False
+  | .diverge => False
+  | _ => True
+
 /-- the `?` operator -/
 def Res.bind (r : Res) (k : Value → Res) : Res :=
   match r with
@@ -679,31 +685,23 @@ def boundOf (r : Option Res) (dflt : Nat) : Res ⊕ Nat :=
   | some .panic => .inl .panic
   | some .diverge => .inl .diverge
 
-/-- body of `Expr::Slice` after the bounds are known; the range indexing can panic in Rust, the
-guard `start ≤ min(end, len)` is what prevents it -/
+/-- `xs[start..min(end, len)]` of `Expr::Slice`; the range indexing can panic in Rust, the guard
+`start ≤ min(end, len)` is what prevents it -/
+def sliceCore {α : Type} (xs : List α) (start : Nat) (endB : Nat → Res ⊕ Nat) (mk : List α → Value) : Res :=
+  match endB xs.length with
+  | .inl r => r
+  | .inr e0 =>
+    if start ≤ Nat.min e0 xs.length then
+      match sliceP xs start (Nat.min e0 xs.length) with
+      | some ys => .val (mk ys)
+      | Option.none => .panic
+    else .val (mk [])
+
+/-- body of `Expr::Slice` after the container and the start bound are known -/
 def sliceVal (c : Value) (start : Nat) (endB : Nat → Res ⊕ Nat) : Res :=
   match c with
-  | .arr xs =>
-    match endB xs.length with
-    | .inl r => r
-    | .inr e0 =>
-      let e := Nat.min e0 xs.length
-      if start ≤ e then
-        match sliceP xs start e with
-        | some ys => .val (.arr ys)
-        | Option.none => .panic
-      else .val (.arr [])
-  | .str s =>
-    let cs := s.toList
-    match endB cs.length with
-    | .inl r => r
-    | .inr e0 =>
-      let e := Nat.min e0 cs.length
-      if start ≤ e then
-        match sliceP cs start e with
-        | some ys => .val (.str (String.ofList ys))
-        | Option.none => .panic
-      else .val (.str "")
+  | .arr xs => sliceCore xs start endB Value.arr
+  | .str s => sliceCore s.toList start endB (fun ys => .str (String.ofList ys))
   | _ => .none
 
 /-! ### built-in functions -/
@@ -731,90 +729,154 @@ def numsOf (xs : List Value) : List F := xs.filterMap numF
 /-- `iter().sum::<f64>()`: left fold from `-0.0` -/
 def fsum (fo : FOps) (fs : List F) : F := fs.foldl fo.add F.negZero
 
-/-- the modelled subset of `eval_builtin_function`; names outside it are listed in
-`unmodelledBuiltins` and are never generated by the correspondence -/
+/-! Each `b…` below is one arm of `eval_builtin_function` (argument list → result). -/
+
+def bAbs (md : Mode) : List Value → Res
+  | .int n :: _ => iabs md n
+  | .float f :: _ => .val (.float f.abs)
+  | _ => .none
+def bSqrt (fo : FOps) : List Value → Res
+  | .int n :: _ => .val (.float (fo.fn1 "sqrt" (F.ofI64 n)))
+  | .float f :: _ => .val (.float (fo.fn1 "sqrt" f))
+  | _ => .none
+def bFloor : List Value → Res
+  | .float f :: _ => .val (.int f.floor.toI64)
+  | .int n :: _ => .val (.int n)
+  | _ => .none
+def bCeil : List Value → Res
+  | .float f :: _ => .val (.int f.ceil.toI64)
+  | .int n :: _ => .val (.int n)
+  | _ => .none
+def bRound : List Value → Res
+  | .float f :: _ => .val (.int f.round.toI64)
+  | .int n :: _ => .val (.int n)
+  | _ => .none
+def bPow (fo : FOps) : List Value → Res
+  | [.int a, .int b] => .val (.int (ipow fo a b))
+  | [.float a, .int b] => .val (.float (fo.powi a (asI32 b)))
+  | [.float a, .float b] => .val (.float (fo.powf a b))
+  | [.int a, .float b] => .val (.float (fo.powf (F.ofI64 a) b))
+  | _ => .none
+def bMin : List Value → Res
+  | [.int a, .int b] => .val (.int (if b < a then b else a))
+  | [.float a, .float b] => .val (.float (F.min a b))
+  | [.int a, .float b] => .val (.float (F.min (F.ofI64 a) b))
+  | [.float a, .int b] => .val (.float (F.min a (F.ofI64 b)))
+  | _ => .none
+def bMax : List Value → Res
+  | [.int a, .int b] => .val (.int (if a < b then b else a))
+  | [.float a, .float b] => .val (.float (F.max a b))
+  | [.int a, .float b] => .val (.float (F.max (F.ofI64 a) b))
+  | [.float a, .int b] => .val (.float (F.max a (F.ofI64 b)))
+  | _ => .none
+def bLen : List Value → Res
+  | .str s :: _ => .val (.int (Int64.ofNat s.utf8ByteSize))
+  | .arr xs :: _ => .val (.int (Int64.ofNat xs.length))
+  | .map kvs :: _ => .val (.int (Int64.ofNat kvs.length))
+  | _ => .none
+def bFirst : List Value → Res
+  | .arr xs :: _ => Res.ofOption xs.head?
+  | _ => .none
+def bLast : List Value → Res
+  | .arr xs :: _ => Res.ofOption xs.getLast?
+  | _ => .none
+def bPush : List Value → Res
+  | [.arr xs, v] => .val (.arr (xs ++ [v]))
+  | _ => .none
+def bPop : List Value → Res
+  | .arr xs :: _ => if xs.isEmpty then .none else .val (.arr xs.dropLast)
+  | _ => .none
+def bReverse : List Value → Res
+  | .arr xs :: _ => .val (.arr xs.reverse)
+  | .str s :: _ => .val (.str (String.ofList s.toList.reverse))
+  | _ => .none
+def bContains : List Value → Res
+  | [.arr xs, v] => .val (.bool (containsVal xs v))
+  | [.str s, .str sub] => .val (.bool (strContains s sub))
+  | [.map kvs, .str k] => .val (.bool (kvs.any (·.1 == k)))
+  | _ => .none
+def bKeys : List Value → Res
+  | .map kvs :: _ => .val (.arr (kvs.map fun kv => .str kv.1))
+  | _ => .none
+def bValues : List Value → Res
+  | .map kvs :: _ => .val (.arr (kvs.map (·.2)))
+  | _ => .none
+def bGet : List Value → Res
+  | [.arr xs, .int idx] => Res.ofOption (xs[asUsize idx]?)
+  | [.map kvs, .str k] => Res.ofOption (kvs.lookup k)
+  | _ => .none
+/-- `arr[idx] = val` would panic out of bounds; guarded by `idx < arr.len()` -/
+def setP (xs : List Value) (i : Nat) (v : Value) : Res :=
+  if i < xs.length then .val (.arr (xs.set i v)) else .panic
+def bSet : List Value → Res
+  | [.arr xs, .int idx, v] => if asUsize idx < xs.length then setP xs (asUsize idx) v else .val (.arr xs)
+  | [.map kvs, .str k, v] => .val (.map (mapInsert kvs k v))
+  | _ => .none
+def bSum (fo : FOps) : List Value → Res
+  | .arr xs :: _ => .val (.float (fsum fo (numsOf xs)))
+  | _ => .none
+def bAvg (fo : FOps) : List Value → Res
+  | .arr xs :: _ =>
+    if (numsOf xs).isEmpty then .val (.float F.zero)
+    else .val (.float (fo.div (fsum fo (numsOf xs)) (F.ofNat (numsOf xs).length)))
+  | _ => .none
+def bToInt : List Value → Res
+  | .int n :: _ => .val (.int n)
+  | .float f :: _ => .val (.int f.toI64)
+  | .str s :: _ => Res.ofOption ((parseI64 s).map Value.int)
+  | .bool b :: _ => .val (.int (if b then 1 else 0))
+  | _ => .none
+/-- (`Str` arguments — float parsing — are outside the model) -/
+def bToFloat : List Value → Res
+  | .int n :: _ => .val (.float (F.ofI64 n))
+  | .float f :: _ => .val (.float f)
+  | _ => .none
+def bStartsWith : List Value → Res
+  | [.str s, .str p] => .val (.bool (s.startsWith p))
+  | _ => .none
+def bEndsWith : List Value → Res
+  | [.str s, .str p] => .val (.bool (s.endsWith p))
+  | _ => .none
+/-- `chars[start..end]` would panic; guarded by `start <= end && end <= chars.len()` -/
+def substrCore (s : String) (start en : Nat) : Res :=
+  if start ≤ en ∧ en ≤ s.toList.length then
+    match sliceP s.toList start en with
+    | some ys => .val (.str (String.ofList ys))
+    | Option.none => .panic
+  else .none
+def bSubstring : List Value → Res
+  | [.str s, .int st] => substrCore s (asUsize st) s.utf8ByteSize
+  | .str s :: .int st :: .int en :: _ => substrCore s (asUsize st) (asUsize en)
+  | _ => .none
+def bTypeOf : List Value → Res
+  | v :: _ => .val (.str (typeName v))
+  | _ => .none
+def bIs (p : Value → Bool) : List Value → Res
+  | v :: _ => .val (.bool (p v))
+  | _ => .none
+
+/-- the modelled subset of `eval_builtin_function` (names outside it are listed in
+`unmodelledBuiltins` and are never compared by the correspondence) -/
+def builtinTable (fo : FOps) (md : Mode) : List (String × (List Value → Res)) :=
+  [("abs", bAbs md), ("sqrt", bSqrt fo), ("floor", bFloor), ("ceil", bCeil), ("round", bRound),
+   ("pow", bPow fo), ("min", bMin), ("max", bMax), ("len", bLen), ("first", bFirst), ("last", bLast),
+   ("push", bPush), ("pop", bPop), ("reverse", bReverse), ("contains", bContains), ("keys", bKeys),
+   ("values", bValues), ("get", bGet), ("set", bSet), ("sum", bSum fo), ("avg", bAvg fo),
+   ("to_int", bToInt), ("to_float", bToFloat), ("starts_with", bStartsWith), ("ends_with", bEndsWith),
+   ("substring", bSubstring), ("type_of", bTypeOf),
+   ("is_null", bIs fun v => match v with | .null => true | _ => false),
+   ("is_int", bIs fun v => match v with | .int _ => true | _ => false),
+   ("is_float", bIs fun v => match v with | .float _ => true | _ => false),
+   ("is_string", bIs fun v => match v with | .str _ => true | _ => false),
+   ("is_bool", bIs fun v => match v with | .bool _ => true | _ => false),
+   ("is_array", bIs fun v => match v with | .arr _ => true | _ => false),
+   ("is_map", bIs fun v => match v with | .map _ => true | _ => false)]
+
+/-- `eval_builtin_function` -/
 def builtin (fo : FOps) (md : Mode) (name : String) (args : List Value) : Res :=
-  match name, args with
-  | "abs", .int n :: _ => iabs md n
-  | "abs", .float f :: _ => .val (.float f.abs)
-  | "sqrt", .int n :: _ => .val (.float (fo.fn1 "sqrt" (F.ofI64 n)))
-  | "sqrt", .float f :: _ => .val (.float (fo.fn1 "sqrt" f))
-  | "floor", .float f :: _ => .val (.int f.floor.toI64)
-  | "floor", .int n :: _ => .val (.int n)
-  | "ceil", .float f :: _ => .val (.int f.ceil.toI64)
-  | "ceil", .int n :: _ => .val (.int n)
-  | "round", .float f :: _ => .val (.int f.round.toI64)
-  | "round", .int n :: _ => .val (.int n)
-  | "pow", [.int a, .int b] => .val (.int (ipow fo a b))
-  | "pow", [.float a, .int b] => .val (.float (fo.powi a (asI32 b)))
-  | "pow", [.float a, .float b] => .val (.float (fo.powf a b))
-  | "pow", [.int a, .float b] => .val (.float (fo.powf (F.ofI64 a) b))
-  | "min", [.int a, .int b] => .val (.int (if b < a then b else a))
-  | "min", [.float a, .float b] => .val (.float (F.min a b))
-  | "min", [.int a, .float b] => .val (.float (F.min (F.ofI64 a) b))
-  | "min", [.float a, .int b] => .val (.float (F.min a (F.ofI64 b)))
-  | "max", [.int a, .int b] => .val (.int (if a < b then b else a))
-  | "max", [.float a, .float b] => .val (.float (F.max a b))
-  | "max", [.int a, .float b] => .val (.float (F.max (F.ofI64 a) b))
-  | "max", [.float a, .int b] => .val (.float (F.max a (F.ofI64 b)))
-  | "len", .str s :: _ => .val (.int (Int64.ofNat s.utf8ByteSize))
-  | "len", .arr xs :: _ => .val (.int (Int64.ofNat xs.length))
-  | "len", .map kvs :: _ => .val (.int (Int64.ofNat kvs.length))
-  | "first", .arr xs :: _ => Res.ofOption xs.head?
-  | "last", .arr xs :: _ => Res.ofOption xs.getLast?
-  | "push", [.arr xs, v] => .val (.arr (xs ++ [v]))
-  | "pop", .arr xs :: _ => if xs.isEmpty then .none else .val (.arr xs.dropLast)
-  | "reverse", .arr xs :: _ => .val (.arr xs.reverse)
-  | "reverse", .str s :: _ => .val (.str (String.ofList s.toList.reverse))
-  | "contains", [.arr xs, v] => .val (.bool (containsVal xs v))
-  | "contains", [.str s, .str sub] => .val (.bool (strContains s sub))
-  | "contains", [.map kvs, .str k] => .val (.bool (kvs.any (·.1 == k)))
-  | "keys", .map kvs :: _ => .val (.arr (kvs.map fun kv => .str kv.1))
-  | "values", .map kvs :: _ => .val (.arr (kvs.map (·.2)))
-  | "get", [.arr xs, .int idx] => Res.ofOption (xs[asUsize idx]?)
-  | "get", [.map kvs, .str k] => Res.ofOption (kvs.lookup k)
-  | "set", [.arr xs, .int idx, v] =>
-    -- `arr[idx] = val` would panic out of bounds; guarded by `idx < arr.len()`
-    if asUsize idx < xs.length then .val (.arr (xs.set (asUsize idx) v)) else .val (.arr xs)
-  | "set", [.map kvs, .str k, v] => .val (.map (mapInsert kvs k v))
-  | "sum", .arr xs :: _ => .val (.float (fsum fo (numsOf xs)))
-  | "avg", .arr xs :: _ =>
-    let ns := numsOf xs
-    if ns.isEmpty then .val (.float F.zero)
-    else .val (.float (fo.div (fsum fo ns) (F.ofNat ns.length)))
-  | "to_int", .int n :: _ => .val (.int n)
-  | "to_int", .float f :: _ => .val (.int f.toI64)
-  | "to_int", .str s :: _ => Res.ofOption ((parseI64 s).map Value.int)
-  | "to_int", .bool b :: _ => .val (.int (if b then 1 else 0))
-  | "to_float", .int n :: _ => .val (.float (F.ofI64 n))
-  | "to_float", .float f :: _ => .val (.float f)
-  | "starts_with", [.str s, .str p] => .val (.bool (s.startsWith p))
-  | "ends_with", [.str s, .str p] => .val (.bool (s.endsWith p))
-  | "substring", .str s :: .int st :: rest =>
-    let endR : Option Nat := match rest with
-      | [] => some s.utf8ByteSize
-      | .int n :: _ => some (asUsize n)
-      | _ => Option.none
-    match endR with
-    | Option.none => .none
-    | some en =>
-      let cs := s.toList
-      let start := asUsize st
-      -- `chars[start..end]` would panic; guarded by `start <= end && end <= chars.len()`
-      if start ≤ en ∧ en ≤ cs.length then
-        match sliceP cs start en with
-        | some ys => .val (.str (String.ofList ys))
-        | Option.none => .panic
-      else .none
-  | "type_of", v :: _ => .val (.str (typeName v))
-  | "is_null", v :: _ => .val (.bool (match v with | .null => true | _ => false))
-  | "is_int", v :: _ => .val (.bool (match v with | .int _ => true | _ => false))
-  | "is_float", v :: _ => .val (.bool (match v with | .float _ => true | _ => false))
-  | "is_string", v :: _ => .val (.bool (match v with | .str _ => true | _ => false))
-  | "is_bool", v :: _ => .val (.bool (match v with | .bool _ => true | _ => false))
-  | "is_array", v :: _ => .val (.bool (match v with | .arr _ => true | _ => false))
-  | "is_map", v :: _ => .val (.bool (match v with | .map _ => true | _ => false))
-  | _, _ => .none
+  match (builtinTable fo md).lookup name with
+  | some f => f args
+  | Option.none => .none
 
 /-- built-ins of `eval_builtin_function` that the model does not cover (float formatting, Unicode
 case mapping, float parsing, range sizes, sort's comparator) -/
